@@ -430,6 +430,20 @@ def cases(tier):
     cert += ["c", "d"]
     yield _case("min", True, big, starts=["c"], ends=["d"], cert=cert)
     yield _case("k", True, big, starts=["c"], ends=["d"], cert=cert, dk=0)
+    # two DIFFERENT ignored edges between the same pair of SCCs (both leave the 3-cycle for the sink): the bundle loses two units of multiplicity
+    tri = [("s", "a"), ("a", "b"), ("b", "c"), ("c", "a"), ("a", "t"), ("b", "t"), ("c", "t")]
+    for ign in ([["a", "t"], ["b", "t"]], [["b", "t"], ["c", "t"]], [["a", "t"], ["b", "t"], ["c", "t"]][:2] + [["s", "a"]][:0]):
+        for c in _kinds(True, tri, ks=(0, -1), width=True, ignore=ign):
+            yield c
+    tri2 = [("s", "a"), ("s", "b"), ("a", "b"), ("b", "a"), ("a", "t")]
+    for c in _kinds(True, tri2, ks=(0,), width=True, ignore=[["s", "a"]]):
+        yield c
+    # the cyclic cover models with each safe-sequence option switched away from its default (the cover rows must not depend on them)
+    for ed in ([("s", "a"), ("a", "b"), ("b", "a"), ("a", "t")], d16_ := [("x", "y"), ("y", "z"), ("z", "y"), ("z", "w")], tri):
+        for opts in ({"optimize_with_safe_sequences_allow_geq_constraints": False}, {"optimize_with_safe_sequences": False},
+                     {"optimize_with_safe_sequences_fix_via_bounds": True}, {"optimize_with_safe_sequences_fix_zero_edges": False}):
+            for c in _kinds(True, ed, ks=(0, 1), opts=opts):
+                yield c
     # curated cyclic specials: the D16 witness shape, the docs' example
     d16 = [("x", "y"), ("y", "z"), ("z", "y"), ("z", "w")]
     for c in _kinds(True, d16, ks=(0, -1, 1), width=True):
@@ -466,6 +480,8 @@ def _kwargs(case, G):
         kw.update(subpath_constraints=cons, subpath_constraints_coverage=case["cov"])
         if case.get("covlen") is not None:
             kw.update(subpath_constraints_coverage_length=case["covlen"], length_attr=LEN)
+    if case.get("opts"):
+        kw["optimization_options"] = dict(case["opts"])          # a documented optimisation switched away from its default: the cover must stay a minimum cover
     return kw
 
 
@@ -476,6 +492,8 @@ def _inst(case):
             s += " %s=%s" % (k, case[k])
     if case["cover"] != "edge":
         s += " cover_type=node"
+    if case.get("opts"):
+        s += " optimization_options=%s" % (case["opts"],)
     if case["cons"]:
         s += " coverage=%s" % case["cov"] if case.get("covlen") is None else " coverage_length=%s lengths=%s" % (case["covlen"], case["lengths"])
     return s
